@@ -32,6 +32,10 @@ structure RState where
   appliedAtFault : Nat := 0
   needCover : Option Nat := none       -- C14: after the fault cleared, the next acknowledgement must cover this many batches
   crashed : Bool := false              -- the chain contains a crash
+  pendingOpen : Option (List Nat) := none   -- `open` seen (Lock succeeded); the snapshot epochs whose Load failed since
+  floorK : Nat := 0                    -- C14: batches a successful persist after a failure has covered: every later recovery must hold them
+  mustCover : Nat := 0                 -- C14: batches applied when the last persist failure was reported
+  loadFallback : Bool := false         -- C14: OpenWriter skipped a loadable snapshot newer than the one it ended with (Load fault)
 
 /-! ## contents -/
 
@@ -132,7 +136,7 @@ def maxObs (l : List Nat) : Nat := l.foldl max 0
 
 /-- the specification on ONE side of the implementation's answer; `none` = satisfied -/
 def sideBad (r : RState) (name : String) (sd : Side) : Option String :=
-  let tag := if r.inexact then " after-inexact-persist" else ""
+  let tag := (if r.inexact then " after-inexact-persist" else "") ++ (if r.loadFallback then " after-load-fault-at-open" else "")
   let re := if r.reissued.isEmpty then "" else " reissued-over-torn"
   match sd with
   | .crashed how => some s!"bad:open-crashed side={name} how={how}"
@@ -147,7 +151,9 @@ def sideBad (r : RState) (name : String) (sd : Side) : Option String :=
       | some k =>
           match r.d.obs.find? (fun c => decide (k < c)) with
           | some c => some s!"bad:acked-batch-lost side={name} batch={c} recovered-prefix={k}{tag}{re}"
-          | none => if probe then none else some s!"bad:recovered-writer-rejects-batch side={name}"
+          | none =>
+              if k < r.floorK then some s!"bad:retried-batch-lost side={name} recovered-prefix={k} covered-by-the-acknowledgement-after-the-failure={r.floorK}"
+              else if probe then none else some s!"bad:recovered-writer-rejects-batch side={name}"
 
 def splitImpl (impl : String) : String × String :=
   match impl.splitOn " wr=" with
@@ -192,7 +198,7 @@ def addBr (ans b : String) : String :=
 
 def hasFlag (ws : List String) (f : String) : Bool := ws.contains f
 
-def stepLine (r : RState) (op impl : String) : RState × String :=
+def stepLine1 (r : RState) (op impl : String) : RState × String :=
   let ws := (op.splitOn " ").filter (· != "")
   match ws with
   | "case" :: _ =>
@@ -206,7 +212,7 @@ def stepLine (r : RState) (op impl : String) : RState × String :=
   | ["batch", c, tok, dels, keys] =>
       match c.toNat?, tok.toNat?, parseList dels, parseList keys with
       | some c, some tok, some dels, some keys =>
-          if !r.d.sync then (r, answer impl "na" ["desync"]) else
+          if !r.d.sync then ({ r with batches := r.batches.take (c - 1) ++ [mkBatch tok dels keys] }, answer impl "na" ["desync"]) else
           if c != r.d.s.applied + 1 then
             ({ r with d := { r.d with sync := false } }, answer s!"REJECT:batch-number model={r.d.s.applied + 1}" "ok" [])
           else ({ r with batches := r.batches.take (c - 1) ++ [mkBatch tok dels keys] }, answer "batch" "na" ["batch"])
@@ -237,16 +243,9 @@ def stepLine (r : RState) (op impl : String) : RState × String :=
           match crashTo r.d.s sn sg with
           | none => ({ r with d := { r.d with sync := false } }, answer "REJECT:crash-not-possible-in-the-model" "ok" [])
           | some s' =>
-              ({ r with d := { r.d with s := s', commits := [] }, pendingAsync := 0, expectNack := [], faultOn := false, needCover := none, crashed := true },
+              ({ r with d := { r.d with s := s', commits := [] }, pendingAsync := 0, asyncSeen := 0, expectNack := [], faultOn := false, needCover := none, crashed := true },
                answer (showState s') "ok" ["crash", s!"crash-snap-{snap}"] )
       | _, _ => (r, answer "bad-op" "na" [])
-  | ["open"] =>
-      -- Lock() succeeded; OpenWriter as a whole is ONE event of the model. When the model refuses (snapshot files exist and
-      -- none loads) the real OpenWriter must fail too: the `openfail` record follows
-      if r.d.sync && (step r.d.s .openWriter).isNone then (r, answer (showState r.d.s) "ok" ["open-refused"])
-      else
-        let (d, a) := Drv.stepLine r.d op impl
-        ({ r with d := d }, a)
   | ["asyncerr", "persister"] =>
       if !r.d.sync then (r, answer impl "na" ["desync"]) else
       if r.pendingAsync == 0 then (r, answer "REJECT:async-error-without-failed-persist" "ok" [])
@@ -268,14 +267,16 @@ def stepLine (r : RState) (op impl : String) : RState × String :=
   | ["fstart", _] =>
       ({ r with faultOn := true, appliedAtFault := r.d.s.applied }, answer (if r.d.sync then showState r.d.s else impl) "na" ["fstart"])
   | ["fclear"] =>
-      ({ r with faultOn := false, needCover := some r.d.s.applied }, answer (if r.d.sync then showState r.d.s else impl) "na" ["fclear"])
+      ({ r with faultOn := false }, answer (if r.d.sync then showState r.d.s else impl) "na" ["fclear"])
   | ["rdobs", _] =>
       -- C14: what a reader opened from the writer shows while a fault is armed: the batches applied so far
       if !r.d.sync then (r, answer impl "na" ["desync"]) else
       let m := "ok:" ++ showContent (absAfter r r.d.s.applied)
       let v := match parseSide impl with
         | .content c _ => (match findK r c with
-            | some k => if k == r.d.s.applied then "ok" else s!"bad:reader-not-at-applied-batches shows-prefix={k} applied={r.d.s.applied}"
+            | some k =>
+                if k < maxObs r.d.obs then s!"bad:reader-misses-acknowledged-batch shows-prefix={k} acknowledged={maxObs r.d.obs}" ++ (if r.loadFallback then " after-load-fault-at-open" else "")
+                else if k == r.d.s.applied then "ok" else s!"bad:reader-not-at-applied-batches shows-prefix={k} applied={r.d.s.applied}"
             | none => s!"bad:reader-content-not-a-prefix content={showContent c}")
         | .crashed how => s!"bad:reader-crashed how={how}"
         | _ => "bad:reader-failed-during-fault"
@@ -310,12 +311,23 @@ def stepLine (r : RState) (op impl : String) : RState × String :=
   | _ =>
       -- a protocol record: replay through the model
       let pre := r.d.s
+      let wasSync := r.d.sync
       let (d, a) := Drv.stepLine r.d op impl
       let r := { r with d := d }
       -- every violation that follows a Persist which returned nil without leaving the exact bytes is a consequence of that
       let a := if r.inexact && (ansVerdict a).startsWith "bad" && !((ansVerdict a).startsWith "bad:assumption-persist-exact") then
           setAns a (ansResult a) (ansVerdict a ++ " after-inexact-persist" ++ (if r.reissued.isEmpty then "" else " reissued-over-torn"))
         else a
+      let a := if r.loadFallback && (ansVerdict a).startsWith "bad" then setAns a (ansResult a) (ansVerdict a ++ " after-load-fault-at-open") else a
+      -- WF of environment-supplied data, evaluated on the real event: a new segment id must not be taken already
+      -- (below `List(segment)[0] + 2` as seen by OpenWriter, or handed out since)
+      let fresh? (x : String) : Option String := match parseList x with
+        | some l => (l.find? fun y => wasSync && decide (isUsed pre y)).map fun y => s!"bad:segment-id-not-fresh id={y}"
+        | none => none
+      let a := match ws with
+        | ["intro", _, added, _, _, _] => (match fresh? added with | some b => if (ansVerdict a).startsWith "bad" then a else setAns a (ansResult a) b | none => a)
+        | ["msegbegin", sid] => (match fresh? sid with | some b => if (ansVerdict a).startsWith "bad" then a else setAns a (ansResult a) b | none => a)
+        | _ => a
       match ws with
       | ["snapbegin", e, _, _] =>
           (match e.toNat? with
@@ -330,15 +342,56 @@ def stepLine (r : RState) (op impl : String) : RState × String :=
       | ["snapend", _, "1", "1"] => ({ r with everComplete := true }, a)
       | ["pfail", cl] =>
           let nacks := match pre.job with | some j => j.acks | none => []
-          ({ r with pendingAsync := if cl == "0" then r.pendingAsync + 1 else r.pendingAsync, expectNack := r.expectNack ++ nacks }, a)
+          ({ r with pendingAsync := if cl == "0" then r.pendingAsync + 1 else r.pendingAsync, expectNack := r.expectNack ++ nacks,
+                    mustCover := max r.mustCover pre.applied }, a)
       | ["ack", _] =>
-          -- C14: the first acknowledgement after the fault cleared covers everything applied before
-          (match r.needCover, pre.job with
-           | some need, some j =>
-               if j.k ≥ need then ({ r with needCover := none }, addBr a "ack-after-fault-covers")
-               else ({ r with needCover := none }, a)   -- the grab preceded the clearing: the next one must cover
-           | _, _ => (r, a))
-      | ["opened", _] => ({ r with pendingAsync := 0, expectNack := [] }, a)
+          -- C14 (retry_covers): the acknowledgement that follows a failed persist covers everything applied when the
+          -- failure was reported, including the batches whose own call returned the error
+          (match pre.job with
+           | some j =>
+               if r.mustCover == 0 then (r, a)
+               else if j.k ≥ r.mustCover then ({ r with floorK := max r.floorK r.mustCover, mustCover := 0 }, addBr a "ack-after-failure-covers")
+               else ({ r with mustCover := 0 }, setAns a (ansResult a) s!"bad:retry-does-not-cover acknowledged-content={j.k} applied-at-failure={r.mustCover}")
+           | none => (r, a))
+      | ["opened", _] => ({ r with pendingAsync := 0, expectNack := [], mustCover := 0 }, a)
       | _ => (r, a)
+
+/-- `OpenWriter` is ONE event of the model but several records of the run: `open` (Lock succeeded), then `loadfail e` for
+every snapshot whose Load was made to fail (C14), then either `openfail`, or the records of the clean-up and `opened`.
+The model's event is taken when the first record after them arrives. -/
+def stepLine (r : RState) (op impl : String) : RState × String :=
+  let ws := (op.splitOn " ").filter (· != "")
+  match r.pendingOpen, ws with
+  | _, "case" :: _ => stepLine1 { r with pendingOpen := none } op impl
+  | _, "replay" :: _ => stepLine1 { r with pendingOpen := none } op impl
+  | none, ["open"] =>
+      if !r.d.sync then (r, answer impl "na" ["desync"]) else
+      if r.d.s.lock then stepLine1 r op impl      -- a second writer: refused by Lock, not this path
+      else ({ r with pendingOpen := some [], d := { r.d with commits := [] } }, answer (showState r.d.s) "ok" ["open"])
+  | some skip, ["loadfail", e] =>
+      match e.toNat? with
+      | some e => ({ r with pendingOpen := some (e :: skip) }, answer (showState r.d.s) "ok" ["loadfail"])
+      | none => (r, answer "bad-op" "na" [])
+  | some skip, "image" :: _ => let (r', a) := stepLine1 { r with pendingOpen := none } op impl; ({ r' with pendingOpen := some skip }, a)
+  | some _, "crash" :: _ => stepLine1 { r with pendingOpen := none } op impl   -- the process died while OpenWriter ran: nothing was opened
+  | some skip, ["fstart", _] => let (r', a) := stepLine1 { r with pendingOpen := none } op impl; ({ r' with pendingOpen := some skip }, a)
+  | some skip, ["fclear"] => let (r', a) := stepLine1 { r with pendingOpen := none } op impl; ({ r' with pendingOpen := some skip }, a)
+  | some skip, ["openfail"] =>
+      let r := { r with pendingOpen := none }
+      (match stepOpenSkip skip r.d.s with
+       | none => (r, answer (showState r.d.s) "ok" ["openfail", "open-refused"])
+       | some _ =>
+           if r.faultOn || !skip.isEmpty then (r, answer (showState r.d.s) "ok" ["openfail", "openfail-by-fault"])
+           else ({ r with d := { r.d with sync := false } }, answer "REJECT:open-should-succeed" "ok" []))
+  | some skip, _ =>
+      let r := { r with pendingOpen := none }
+      (match stepOpenSkip skip r.d.s with
+       | some s' =>
+           let fell := r.d.s.disk.snaps.any fun f => skip.contains f.epoch && r.d.s.disk.loadable f && decide (s'.rootEpoch < f.epoch)
+           let r := { r with d := { r.d with s := s' }, loadFallback := r.loadFallback || fell }
+           let (r', a) := stepLine1 r op impl
+           (r', if skip.isEmpty then a else addBr a "open-after-loadfail")
+       | none => ({ r with d := { r.d with sync := false } }, answer "REJECT:not-enabled:open" "ok" []))
+  | none, _ => stepLine1 r op impl
 
 end Bluge.Persist.RDrv
